@@ -27,6 +27,21 @@ CHECKS = {
  'C09': dict(tech='structural validator run on every returned factorization under perturbation of supernode numbering vs. subscript allocation',
    text='Every successful factorization of the C01/C02-style workloads is passed through a validator of the SCP/NCP structures and permutations; perturbation mode 4 delays threads between NewNsuper and the LSUB allocation, and the event log counts how often numbering and storage order actually differed.',
    note='Array capacities are not known to the validator: extents are checked for sign, length, stride and disjointness, and ASan covers the ends.', ref='5/C09'),
+ 'C06': dict(tech='ASan build (one case per process) + plain build of both drivers on constructed singular inputs; info compared with an independent structural/exact oracle',
+   text='Singular inputs built so that exact zeros are guaranteed in floating point (stored-zero column/row, isolated Hall blocks, isolated rank-1 +-1 blocks) and others where only safety is claimed (empty rows/columns, non-isolated Hall violators); oracle: normal return, 0<info<=n, expected index from construction / augmenting-path matching on the returned perm_c, B/X untouched, returned L/U walkable under ASan and destroyable.',
+   note='For inputs whose elimination reaches a column with no candidate row the library corrupts memory (known finding); those classes are reported as KNOWN-FINDING, the exact-zero classes are fully enforced.', ref='5/C06'),
+ 'C07': dict(tech='runtime oracle: extended-precision componentwise backward error of the returned X for the original system, exact comparison of A_out/B_out with the reported scaling',
+   text='Expert-driver executions over trans x storage x {DOFACT, EQUILIBRATE, FACTORED reuse with new B and another trans} x forced equilibration outcomes x 4 precisions x threads; matrices with prescribed singular values give a certified premise kappa*growth*n*u<=1e-3 under which 4(n+1)u is enforced.',
+   note='Outside the premise only structural/NaN checks apply; complex + row-wise + CONJ is a known finding.', ref='5/C07'),
+ 'C12': dict(tech='runtime oracle: explicit extended-precision inverse, two-sided bounds on rcond, recomputed pivot growth',
+   text='Expert-driver executions on matrices with prescribed condition numbers up to 1e-3/eps in both norms (all trans x storage), thresholds u in {1,0.5,0.1}; rcond is bounded below by 1/kappa and above by the estimators own first iterate (and by a weaker bound that tolerates the LAPACK non-monotone last step); info=n+1 iff rcond<eps; pivot growth recomputed from the returned factors.',
+   note='The literal e/n upper bound is violated by the LAPACK-derived estimator on rare inputs (known finding).', ref='5/C12'),
+ 'C13': dict(tech='runtime oracle: reported berr vs extended-precision backward error of the returned X; ferr vs exact solution of the equilibrated system',
+   text='Expert-driver executions with nrhs>=1 up to cond 0.1/eps; berr must equal the true componentwise backward error (in the |re|+|im| magnitude the routine uses) within 4(nz+6)u, be O((n+1)u) under the premise, and 40*ferr must dominate the true relative error measured in the equilibrated system against an extended-precision reference with two refinement steps.',
+   note='ferr is judged in the equilibrated system: the driver does not rescale it to the original variables (LAPACK does).', ref='5/C13'),
+ 'C19': dict(tech='runtime oracle: dense extended-precision definitions of the kernels on random inputs; ASan on a subset',
+   text='Direct calls of sp_?gemv/sp_?gemm (N/T/C, special alpha/beta, strides), sp_?trsv for all (uplo,trans) on factors produced by real multithreaded factorizations, ?langs for all norms, conversion/copy/permuted-view constructors, all four precisions.',
+   note='Non-unit strides on the scatter/gather side abort with "Not implemented" (known finding).', ref='5/C19'),
 }
 checks = []
 for pid, d in CHECKS.items():
